@@ -1177,3 +1177,8 @@ v("d161-if-else-result-keeps-na", "C05", PB, "        res = _none_for_missing(nu
 v("c05-sqlite-mod-sign-of-dividend", "C05", SQ, " THEN ((({e0} % {e1}) + {e1}) % {e1})\"", " THEN ({e0} % {e1})\"")
 v("c05-sqlite-floordiv-truncates", "C05", SQ, " THEN (({e0} / {e1}) - ((({e0} % {e1}) != 0) AND (({e0} < 0) != ({e1} < 0))))\"", " THEN ({e0} / {e1})\"")
 v("c05-sqlite-mod-same-meaning-other-text", "C05", SQ, " THEN ((({e0} % {e1}) + {e1}) % {e1})\"", " THEN (({e0} % {e1}) + (CASE WHEN (({e0} % {e1}) != 0) AND ((({e0} % {e1}) < 0) != ({e1} < 0)) THEN {e1} ELSE 0 END))\"", expect="silent")
+
+OSF = "OrderedSet.py"
+v("d162-xor-inherited", "C24", OSF, "    def __xor__(self, other):\n        # order by self, then other (the inherited operator lets another set, e.g. a keys view, answer with a plain set)\n        assert not isinstance(other, str)  # treat string as atomic value, not iterable\n        other = OrderedSet(other)\n        return OrderedSet(\n            [e for e in self if e not in other] + [e for e in other if e not in self]\n        )\n\n", "")
+v("d162-xor-delegates-to-other", "C24", OSF, "        other = OrderedSet(other)\n        return OrderedSet(\n            [e for e in self if e not in other] + [e for e in other if e not in self]\n        )\n", "        return OrderedSet([e for e in self if e not in other]) | (other - self)\n")
+v("d162-xor-twin-ordered-helpers", "C24", OSF, "        return OrderedSet(\n            [e for e in self if e not in other] + [e for e in other if e not in self]\n        )\n", "        left = [e for e in self if e not in other]\n        right = [e for e in other if e not in self]\n        return OrderedSet(left + right)\n", expect="silent")
